@@ -178,7 +178,9 @@ func (nr *nativeRunner) build() {
 	nr.bin = filepath.Join(cache, "replay.test")
 	os.Remove(nr.bin)
 	args := []string{"test", "-c", "-vet=off", "-tags", "verif,purego", "-overlay", ovFile, "-o", nr.bin}
-	if nr.unit.FluxStub {
+	// always build against the libflux stub: even packages that do not import flux often have
+	// test files that do (the replay binary includes the package's own _test.go files)
+	{
 		mf, err := prepareFluxModfile()
 		if err != nil {
 			nr.buildErr = err.Error()
